@@ -159,6 +159,14 @@ class Ctx:
             f = z3.Implies(z3.And(*outer), f)
         self.pc.append(f)
 
+    def add_definition(self, f):
+        """definitional axiom of a ghost function: part of the base context, survives loop-cut resets"""
+        if self.base_len is None:
+            self.pc.append(f)
+        else:
+            self.pc.insert(self.base_len, f)
+            self.base_len += 1
+
     def _note_equality(self, f):
         """remember `term == literal` facts: branch conditions are rewritten with them before asking the solver"""
         if z3.is_and(f):
